@@ -359,9 +359,12 @@ fn gen_delegation_method<'s>(
             },
         },
         _ => {
+            // `self` or `self: Self` (a typed receiver like `self: &Self` has no `reference` either)
             let takes_self_by_value = matches!(
                 fn_sig.inputs.first(),
-                Some(syn::FnArg::Receiver(receiver)) if receiver.reference.is_none()
+                Some(syn::FnArg::Receiver(receiver))
+                    if receiver.reference.is_none()
+                        && matches!(receiver.ty.as_ref(), syn::Type::Path(ty) if ty.path.is_ident("Self"))
             );
 
             DelegatingMethod {
